@@ -556,8 +556,9 @@ STATIC = list(globals().get("STATIC", [])) + list(AGENT_STATIC)
 # ---- C14 units reused (added after seeded change C07-5 was missed): the stop-token waits are woken by a stop_callback; that the
 # ---- callback registered by the wait is still on the stop state's list when request_stop runs is a C14 contract (intrusive list
 # ---- add / remove, add_callback, request_stop); same templates, same contracts, run here as well
-_c14 = {"__name__": "c14_reuse"}
-exec(compile(open("/verif/specs/C14/spec.py").read(), "/verif/specs/C14/spec.py", "exec"), _c14)
+_c14 = {"UNITS": [], "VX_NO_REUSE": True, "__name__": "c14_reuse"}
+if not globals().get("VX_NO_REUSE"):     # reuse is never transitive: the other spec is loaded without ITS reuse blocks (no cycles)
+    exec(compile(open("/verif/specs/C14/spec.py").read(), "/verif/specs/C14/spec.py", "exec"), _c14)
 for _u in _c14["UNITS"]:
     if _u.kind != "bounded" and (_u.name.startswith("list.") or _u.name in ("cb.add_callback", "state.request_stop")):
         _u.name = "c14." + _u.name
@@ -569,8 +570,9 @@ META["trusted_base"] = list(META.get("trusted_base", [])) + ["units c14.* are th
 # ---- C02 units reused (added after seeded change C07-6 was missed): a waiter that is a pika task is resumed through
 # ---- execution_agent::do_resume -> set_thread_state (retry_on_active) -> set_active_state; "the notification reaches the waiter" for
 # ---- a task that was still `active` when notify ran is exactly C02's contract of these three; same templates, run here as well
-_c02 = {}
-exec(compile(open("/verif/specs/C02/spec.py").read(), "/verif/specs/C02/spec.py", "exec"), _c02)
+_c02 = {"UNITS": [], "VX_NO_REUSE": True}
+if not globals().get("VX_NO_REUSE"):     # reuse is never transitive: the other spec is loaded without ITS reuse blocks (no cycles)
+    exec(compile(open("/verif/specs/C02/spec.py").read(), "/verif/specs/C02/spec.py", "exec"), _c02)
 for _u in _c02["UNITS"]:
     if _u.name in ("sts.set_thread_state", "sts.set_active_state", "agent.do_resume", "agent.do_yield"):
         _u.name = "c02." + _u.name
